@@ -133,3 +133,29 @@ def run_mem(repo,seed,tier,procs=16):
          f"MagicMemoryCL and stream MagicMemoryRTL, 1-2 ports, latency 0/1/3, stall probability 0/0.4, source/sink timing incl. back-pressuring sinks: {len(memcheck.configs(tier))} configurations x {len(seeds)} seeded request streams (6 requests per port: reads, writes, all AMOs, lengths 1..4, overlapping addresses)")
   return [dict(key="zoo::memory",ok=True,error=None,obligations=[],kind='bounded-standin',lines=None,ast_hash=None,info=None,time=sum(r['time'] for r in res),is_standin=True,
                standin=dict(evaluations=len(res),failures=fails,bound=bound,per_case={}))]
+
+def _vcdjob(a):
+  repo,seed,name,body=a
+  if repo not in sys.path: sys.path.insert(0,repo)
+  from zoo import designs, vcdcheck
+  _no_graphviz(); t0=time.time()
+  try:
+    Top,src=designs.load(name,body)
+    v=vcdcheck.check_vcd(name,Top,seed,12 if 'wide' in name else 8)
+  except Exception as e:
+    v=[f"the design could not be simulated with waveform dumping: {type(e).__name__}: {str(e)[:160]}"]
+  return dict(design=name,seed=seed,failed=v,time=time.time()-t0,body=body)
+
+def run_vcd(repo,seed,tier,procs=16):
+  from zoo import vcdcheck
+  ds=vcdcheck.vcd_designs(); seeds=[seed+1,seed+2] if tier=='quick' else [seed+k for k in range(1,7)]
+  jobs=[(repo,sd,n,b) for n,b in ds for sd in seeds]
+  with Pool(min(procs,len(jobs))) as p: res=p.map(_vcdjob,jobs,chunksize=1)
+  fails=[dict(args={'design':f"{r['design']} seed={r['seed']}"},failed=[m],custom=dict(kind='custom',module='zoo.replay',entry='replay_vcd',design=r['design'],body=r['body'],seed=r['seed'])) for r in res for m in r['failed'][:1]]
+  sym=vcdcheck.check_symbols(repo)
+  fails+=[dict(args={'design':'_gen_vcd_symbol'},failed=[m],custom=dict(kind='custom',module='zoo.replay',entry='replay_vcdsym')) for m in sym]
+  bound=(f"the VCD file and the text-wave record, read back by an independent parser, give every signal of every component the value the simulator held at each cycle, and the clock toggles once per cycle: {len(ds)} designs "
+         f"(struct signals, shared nets, never-changing signals, a 96-stage delay line = more than 94 nets, a 64-bit signal stepping through values with equal hashes) x {len(seeds)} seeded input sequences; "
+         "the VCD symbol generator (extracted from the real source) yields 100000 pairwise distinct printable symbols")
+  return [dict(key="zoo::vcd",ok=True,error=None,obligations=[],kind='bounded-standin',lines=None,ast_hash=None,info=None,time=sum(r['time'] for r in res),is_standin=True,
+               standin=dict(evaluations=len(res)+1,failures=fails,bound=bound,per_case={}))]
